@@ -906,7 +906,7 @@ def _strdiff(a, b):
 
 
 FIELD_FAULTS = ['x_nan', 'resid_nan', 'obj_nan', 'jacobian_none', 'jacobian_nan', 'jacmin_eval_nums_none', 'diagnostic_none',
-                'long_resid', 'big_jacobian', 'long_jacmin_eval_nums', 'all_nan']
+                'long_resid', 'big_jacobian', 'long_jacmin_eval_nums', 'all_nan', 'obj_zero', 'all_zero']
 
 
 def apply_field_fault(soln, name):
@@ -921,6 +921,13 @@ def apply_field_fault(soln, name):
         s.resid[-1] = np.nan
     if name in ('obj_nan', 'all_nan'):
         s.obj = float('nan')
+    if name in ('obj_zero', 'all_zero'):      # falsy but perfectly legal values (start at an exact root): seeded change C20e (`obj or nan`)
+        s.obj = 0.0
+    if name == 'all_zero':
+        s.x = np.zeros_like(np.asarray(s.x, dtype=float))
+        s.resid = np.zeros_like(np.asarray(s.resid, dtype=float))
+        if s.jacobian is not None:
+            s.jacobian = np.zeros_like(np.asarray(s.jacobian, dtype=float))
     if name == 'jacobian_none':
         s.jacobian = None
     if name in ('jacobian_nan', 'all_nan') and s.jacobian is not None:
